@@ -17,6 +17,8 @@ def T : Tables := Dawgs.C08.Inst.T
 partial def iwalk : Tree → St × Nat × List String → Except String (St × Nat × List String)
   | .node r kids, (st, sup, acc) =>
     let topV := (st.stack.headD (0, 0)).1
+    -- "!<rule>" entries: the active visitor's own method reports the rule as unsupported (counted with the unsupported errors)
+    let acc := if T.unsupM.contains (topV, r) then acc ++ ["!" ++ ruleName r] else acc
     let stopHere := sup == 0 && C.stops (topV, r)
     let acc := if sup == 0 && C.flagged (topV, r) then acc ++ [typeName topV ++ "@" ++ ruleName r] else acc
     let sup' := if sup > 0 || stopHere then sup + 1 else 0
@@ -45,14 +47,16 @@ partial def shapes (t : Tree) : List String :=
       (if ["oC_AddOrSubtractExpression", "oC_MultiplyDivideModuloExpression", "oC_PowerOfExpression", "oC_UnaryAddOrSubtractExpression"].contains name
           && !((litTokens t).all arithOps.contains) then ["ArithmeticExpressionVisitor:non-blank-SP-read-as-operator"] else []) ++
       (if name == "oC_RangeLiteral" && (kidsOfRule N t "oC_IntegerLiteral").length == 1 && !(hasTok N t "T__11") then ["oC_RangeLiteral:exact-hops-read-as-lower-bound"] else []) ++
-      (if name == "oC_DoubleLiteral" then ["format.formatLiteral:float-reformatted"] else []) ++
-      (if name == "oC_NodeLabels" && (kidsOfRule N t "oC_NodeLabel").length ≥ 2 then ["format.KindMatcher:multiple-labels-printed-as-disjunction"] else []) ++
       (if name == "oC_Namespace" && !(kidsOfRule N t "oC_SymbolicName").isEmpty then ["format.FunctionInvocation:namespace-separator-missing"] else []) ++
       (if name == "oC_MapLiteral" &&
           (let ks := (kidsOfRule N t "oC_PropertyKeyName").map (fun k => unescapeKey (getText 100000 k)); ks.eraseDups.length != ks.length)
         then ["MapLiteralVisitor:duplicate-key-keeps-last"] else []) ++
       (if name == "oC_PropertyExpression" && (kidsOfRule N t "oC_PropertyLookup").length ≥ 2 then ["PropertyExpressionVisitor:chained-lookup-keeps-last-key"] else [])
-    here ++ ks.flatMap shapes
+    -- repaired shapes (status fixed): recognised last, so that a regression gets its specific key without masking a known one
+    let repaired : List String :=
+      (if name == "oC_DoubleLiteral" then ["format.formatLiteral:float-reformatted"] else []) ++
+      (if name == "oC_NodeLabels" && (kidsOfRule N t "oC_NodeLabel").length ≥ 2 then ["format.KindMatcher:multiple-labels-printed-as-disjunction"] else [])
+    here ++ ks.flatMap shapes ++ repaired
   | _ => []
 
 def despace (s : String) : String := String.ofList (s.toList.filter (fun c => c != ' '))
@@ -64,13 +68,19 @@ def step (_ : Unit) (ts : List String) : Unit × String :=
     | some [.atom "tree", sx] =>
       match Driver.C08.toTree sx with
       | some t =>
-        let unsup := t.rules.flatMap (fun r => List.replicate (Dawgs.C08.Inst.E.unsupErrCount r) (ruleName r))
-        let ign := match iwalk t (T.init, 0, []) with
-          | .ok (_, _, acc) => acc.eraseDups
+        let walked := match iwalk t (T.init, 0, []) with
+          | .ok (_, _, acc) => acc
           | .error _ => ["<panic>"]
-        let sh := (shapes t).eraseDups
+        let vuns := (walked.filter (·.startsWith "!")).map (fun s => (s.drop 1).toString)
+        let unsup := t.rules.flatMap (fun r => List.replicate (Dawgs.C08.Inst.E.unsupErrCount r) (ruleName r)) ++ vuns
+        let ign := (walked.filter (fun s => !(s.startsWith "!"))).eraseDups
+        let shAll := (shapes t).eraseDups
+        let isRepaired (x : String) : Bool := x == "format.formatLiteral:float-reformatted" || x == "format.KindMatcher:multiple-labels-printed-as-disjunction"
+        let sh := shAll.filter (fun x => !(isRepaired x)) ++ shAll.filter isRepaired
         let (b, m, e) := match build N t with
-          | .ok q => ("ok", toSexp q, jsonQuote (despace (String.join (emit q))))
+          | .ok q =>
+            let toks := emit q
+            ("ok", toSexp q, if toks.contains unknownFloat then "-" else jsonQuote (despace (String.join toks)))
           | .error (.unmodelled r) => ("unmodelled:" ++ r, "-", "-")
           | .error (.rejected w) => ("rejected:" ++ w.replace " " "_", "-", "-")
         ((), s!"unsup=[{Driver.C08.sortedNames unsup}] | build={b} ignored=[{",".intercalate ign}] shapes=[{",".intercalate sh}] emit={e} model={m}")
